@@ -142,6 +142,13 @@ func readHeader(reader io.ReaderAt) (*bucketToOffset, *indexmeta.Meta, int64, er
 		return nil, nil, 0, fmt.Errorf("failed to read header size: %w", err)
 	}
 	// read header bytes:
+	if headerSize > 0 {
+		// The header size comes from the file: check that the last byte of the header is present before allocating that much.
+		var last [1]byte
+		if n, err := reader.ReadAt(last[:], 4+headerSize-1); n < len(last) {
+			return nil, nil, 0, fmt.Errorf("failed to read header bytes: %w", err)
+		}
+	}
 	headerBuf := make([]byte, headerSize)
 	if _, err := reader.ReadAt(headerBuf, 4); err != nil {
 		return nil, nil, 0, fmt.Errorf("failed to read header bytes: %w", err)
